@@ -268,6 +268,9 @@ func runC01(ctx *Ctx) {
 		g := newPageGen(r)
 		g.Decorate = r.Chance(30)
 		g.RelURLs = r.Chance(50)
+		if i%2 == 1 {
+			g.Weights = append(defaultWeights(), W{"exotic", 25})
+		}
 		body := g.blocks(r.Range(2, 10), 0)
 		if r.Chance(60) {
 			nn := r.Range(2, 8)
